@@ -19,6 +19,9 @@ import traceback
 from datetime import timedelta
 from pathlib import Path
 
+if os.environ.get("CFDP_LINECOV"):
+    import linecov  # noqa: F401  (developer tool: which lines of cfdppy do the executions reach)
+
 import spacepackets.countdown as _cd
 from spacepackets.cfdp import (ChecksumType, ConditionCode, CrcFlag, Direction, FaultHandlerCode,
                                LargeFileFlag, PduConfig, PduType, TransactionId, TransmissionMode)
@@ -29,7 +32,8 @@ from spacepackets.cfdp.pdu.file_data import FileDataParams
 from spacepackets.cfdp.pdu.finished import DeliveryCode, FileStatus, FinishedParams
 from spacepackets.cfdp.pdu.helper import PduFactory
 from spacepackets.cfdp.pdu.prompt import ResponseRequired
-from spacepackets.cfdp.tlv import EntityIdTlv, MessageToUserTlv
+from spacepackets.cfdp.tlv import (CfdpTlv, EntityIdTlv, FaultHandlerOverrideTlv, FileStoreRequestTlv, FlowLabelTlv,
+                                  MessageToUserTlv, TlvType)
 from spacepackets.countdown import Countdown
 from spacepackets.seqcount import ProvidesSeqCount
 from spacepackets.util import ByteFieldGenerator, UnsignedByteField
@@ -103,8 +107,31 @@ DEFAULT_CFG = dict(
     chk="CRC32", ackInt=1000, ackLim=2, nakInt=1000, nakLim=2, chkInt=1000, chkLim=2, immNak=True,
     disp=False, sIdW=2, dIdW=2, sId=1, dId=2, seqW=2, seq0=0, indS=IND_DEFAULT, indD=IND_DEFAULT,
     fhS=FH_DEFAULT, fhD=FH_DEFAULT, file=[48, 49, 50, 51, 52, 53, 54, 55, 56, 57, 65, 66], mdOnly=False,
-    srcName="src.bin", dstName="dst.bin", dstShape="file", dstOld=[], msgs=[], memfs=False, more=[],
+    srcName="src.bin", dstName="dst.bin", dstShape="file", dstOld=[], msgs=[], xopts=[], memfs=False, more=[],
 )
+
+
+def xopts_kw(xopts) -> dict:
+    """The non-message Metadata options of a put request (abstract: [{t, v}], t = TLV type 0 filestore request,
+    4 fault handler override, 5 flow label; v = value bytes) -> PutRequest keyword arguments."""
+    fs, fho, flow = [], [], None
+    for o in xopts or []:
+        raw = bytes([o["t"], len(o["v"])]) + bytes(o["v"])
+        if o["t"] == 0:
+            fs.append(FileStoreRequestTlv.unpack(raw))
+        elif o["t"] == 4:
+            fho.append(FaultHandlerOverrideTlv.unpack(raw))
+        elif o["t"] == 5:
+            flow = FlowLabelTlv.unpack(raw)
+        else:
+            raise ValueError(o)
+    return dict(fs_requests=fs or None, fault_handler_overrides=fho or None, flow_label_tlv=flow)
+
+
+def xopts_abs(r) -> list:
+    """PutRequest -> its non-message Metadata options in the order the request lists them by kind."""
+    tl = list(r.fs_requests or []) + list(r.fault_handler_overrides or []) + ([r.flow_label_tlv] if r.flow_label_tlv is not None else [])
+    return [dict(t=int(x.tlv_type), v=list(x.value)) for x in tl]
 
 
 def mkcfg(**kw) -> dict:
@@ -637,7 +664,7 @@ class World:
         if t == "FD":
             p = FileDataPdu(c, FileDataParams(bytes(a["data"]), a["off"], None))
         elif t == "MD":
-            opts = [MessageToUserTlv(bytes(o["v"])) for o in a["opts"] if o["t"] == 2]
+            opts = [MessageToUserTlv(bytes(o["v"])) if o["t"] == 2 else CfdpTlv(TlvType(o["t"]), bytes(o["v"])) for o in a["opts"]]
             p = MetadataPdu(c, MetadataParams(a["closure"], CHK[a["chkType"]], a["size"], self.unrel(a["srcName"]),
                                               self.unrel(a["dstName"])), opts or None)
         elif t == "EOF":
@@ -761,7 +788,7 @@ class World:
                     dstName=self.rel(None if r.dest_file is None else r.dest_file.as_posix()),
                     dIdW=r.destination_id.byte_len, dId=r.destination_id.value,
                     known=self.tbl_s.get_cfg(r.destination_id) is not None,
-                    msgs=[list(m.value) for m in (r.msgs_to_user or [])])
+                    msgs=[list(m.value) for m in (r.msgs_to_user or [])], xopts=xopts_abs(r))
 
     def put_request(self, **over) -> PutRequest:
         c = self.cfg
@@ -773,7 +800,7 @@ class World:
         pc = None if c["putClosure"] == "none" else (c["putClosure"] == "true")
         msgs = [MessageToUserTlv(bytes(m)) for m in c["msgs"]] or None
         kw = dict(destination_id=self.did, source_file=sf, dest_file=df, trans_mode=pm, closure_requested=pc,
-                  msgs_to_user=msgs)
+                  msgs_to_user=msgs, **xopts_kw(c.get("xopts")))
         kw.update(over)
         return PutRequest(**kw)
 
